@@ -60,3 +60,38 @@ WINDOW_INV = dict(
 contract(ENG, props=['C03'], name='engine', blocks_only=True,
          blocks={'memmap_line': MEMMAP_BODY, 'window': WINDOW},
          loops={'4.0': MEMMAP_INNER, '5': WINDOW_INV})
+
+# ---- the window parameters reach the engine as given on the command line ------------------------------------------
+AM = 'bespokeasm.assembler.model:AssemblerModel.__init__'
+contract(AM, props=['C03'], assumed=True, reason='ISA model construction (YAML loading, validation) is the subject of C19',
+         params={'config_file_path': 'str', 'is_verbose': 'int'}, may_raise={'SystemExit': 'True'}, modifies=[],
+         no_frame_check=True)
+
+contract('bespokeasm.assembler.engine:Assembler.__init__', props=['C03'],
+         params={'binary_end': 'int?', 'include_paths': 'list[str]', 'predefined': 'list[str]'},
+         may_raise={'SystemExit': 'True'},
+         ensures=['self._binary_start == binary_start', 'self._binary_end == binary_end',
+                  # the fill value is a byte
+                  'self._binary_fill_value == binary_fill_value % 256',
+                  'self._generate_binary == generate_binary', 'self._output_file == output_file'],
+         modifies=['self._source_file', 'self._output_file', 'self._config_file', 'self._generate_binary',
+                   'self._enable_pretty_print', 'self._pretty_print_format', 'self._pretty_print_output',
+                   'self._binary_fill_value', 'self._verbose', 'self._binary_start', 'self._binary_end', 'self._model',
+                   'self._include_paths', 'self._predefined_symbols'], allocates=True)
+
+contract(ENG, props=['C03'], name='assumed:assemble_bytecode', assumed=True,
+         reason='used only as the callee of the CLI entry point; its kernels are verified as blocks',
+         may_raise={'SystemExit': 'True', 'ValueError': 'True'}, modifies=[], no_frame_check=True)
+
+contract('bespokeasm.__main__:compile', props=['C03'],
+         params={'asm_file': 'str', 'config_file': 'str', 'binary': 'bool', 'output_file': 'str?',
+                 'binary_min_address': 'int', 'binary_max_address': 'int', 'binary_fill': 'int', 'pretty_print': 'bool',
+                 'pretty_print_format': 'str', 'pretty_print_output': 'str', 'verbose': 'int',
+                 'include_path': 'list[str]', 'macro_symbol': 'list[str]'},
+         may_raise={'SystemExit': 'True', 'ValueError': 'True'},
+         ensures=[  # -s N starts the window at N; -e N (N >= 0) ends it at N, an absent / negative -e means "no end given"
+             'asm._binary_start == binary_min_address',
+             'implies(binary_max_address >= 0, asm._binary_end is not None and value_of(asm._binary_end) == binary_max_address)',
+             'implies(binary_max_address < 0, asm._binary_end is None)',
+             'asm._binary_fill_value == binary_fill % 256', 'asm._generate_binary == binary'],
+         modifies=[], allocates=True, no_frame_check=True)
